@@ -34,7 +34,7 @@ func exactProperty(t *testing.T, sp exactSpec) {
 	binEvery := 60
 	n := 0
 	rapid.Check(t, func(rt *rapid.T) {
-		opts := proggen.GenOpts{Focus: sp.focus, MinPkgs: 1, MaxPkgs: 4, TestFiles: true, Aliases: true}
+		opts := proggen.GenOpts{Focus: sp.focus, MinPkgs: 1, MaxPkgs: 4, TestFiles: true, XTest: true, Aliases: true}
 		if rapid.IntRange(0, 9).Draw(rt, "rich") < 3 {
 			opts.Rich = true
 		}
